@@ -97,6 +97,7 @@ class BulkProof:
                 self.p_val = l
         self.notes = []
         self.panic_obs = []
+        self.term_obs = []
         self._closure_cache = {}
 
     def name(self, l):
@@ -1291,6 +1292,9 @@ class BulkProof:
         if not self.icovers(st, a, c, "LT", hi, None if st.eq(lo, Z0) else lo):
             raise Fail("recursive call: not every passed index is known to lie inside the passed sub-view "
                        "(index + start of sub-view < end of sub-view)")
+        # well-founded recursion: the passed sub-view is strictly shorter than the current view
+        shorter = (st.le(hi, ("N", 0)) and st.le(("Z", 1), lo)) or (st.le(hi, ("N", -1)) and st.le(Z0, lo))
+        self.term_obs.append((bool(shorter) or st.d.bottom, "sub-view [%s, %s) of a view of length N" % (lo, hi)))
         T = ("T", 0)
         J = ("J", 0)
         inside = st.le(a, T) and st.lt(T, c)
